@@ -4,6 +4,7 @@
 package dbmodel
 
 import (
+	"bytes"
 	"encoding/json"
 	"fmt"
 	"strconv"
@@ -210,11 +211,27 @@ func (s *Step) Normalize() {
 
 // ---------------------------------------------------------------- values
 
+// BigValue is the first value number that carries a size: v = KB*BigValue + serial is stored as
+// "v<v>|" padded with a pattern derived from v up to KB*1024 bytes (OxiaDbBlocks.tla: values large
+// enough for a shard to span many storage blocks).
+const BigValue = 1000000
+
 func ValueBytes(v int) []byte {
 	if v == -1 {
 		// a session record: what sessionManager.createSession stores
 		md := &proto.SessionMetadata{TimeoutMs: 300000, Identity: "verif"}
 		b, _ := md.MarshalVT()
+		return b
+	}
+	if v >= BigValue {
+		n := (v / BigValue) * 1024
+		b := make([]byte, 0, n)
+		b = append(b, 'v')
+		b = strconv.AppendInt(b, int64(v), 10)
+		b = append(b, '|')
+		for i := len(b); i < n; i++ {
+			b = append(b, byte('A'+(i+v)%26))
+		}
 		return b
 	}
 	return []byte("v" + strconv.Itoa(v))
@@ -224,9 +241,19 @@ func ValueInt(key string, b []byte) int {
 	if strings.HasPrefix(key, SessPrefix) {
 		return -1
 	}
-	s := string(b)
-	if strings.HasPrefix(s, "v") {
-		if n, err := strconv.Atoi(s[1:]); err == nil {
+	if len(b) > 0 && b[0] == 'v' {
+		head := b
+		if len(head) > 24 {
+			head = head[:24]
+		}
+		if i := bytes.IndexByte(head, '|'); i > 0 {
+			n, err := strconv.Atoi(string(b[1:i]))
+			if err == nil && n >= BigValue && bytes.Equal(b, ValueBytes(n)) {
+				return n
+			}
+			return -999
+		}
+		if n, err := strconv.Atoi(string(b[1:])); err == nil {
 			return n
 		}
 	}
